@@ -311,3 +311,63 @@ class ExecuteOperation(Contract):
 
 
 CONTRACTS.append(ExecuteOperation())
+
+
+# ---- execute_fields_serially (C09): one await per collected root field, in collection order; results keyed in that order
+FO = z3.Function('FieldOutcome', V, V, V)            # (field nodes, response key) -> what resolving + completing that field returns
+FRaises = z3.Function('FieldRaises', V, V, BoolS)    # ... or it raises (failure at a non-null position)
+SerMap = z3.RecFunction('SerialResultsUpTo', VL, IntS, VL)
+_it = z3.Const('sm_items', VL)
+_sk = z3.Int('sm_k')
+_ser_body = lambda items, k: z3.If(k <= 0, VL.nil, z3.If(FO(V.snd(nth(items, k - 1)), V.fst(nth(items, k - 1))) == V.Undef, SerMap(items, k - 1),
+                                                        assoc_set(SerMap(items, k - 1), V.fst(nth(items, k - 1)), FO(V.snd(nth(items, k - 1)), V.fst(nth(items, k - 1))))))
+z3.RecAddDefinition(SerMap, [_it, _sk], _ser_body(_it, _sk))
+UNFOLD['SerialResultsUpTo'] = _ser_body
+AllFieldEntries = ForallList('field_entry', lambda p: z3.And(V.is_Pair(p), V.is_Str(V.fst(p)), V.is_List(V.snd(p))))
+
+
+class ExecuteFieldsSerially(Contract):
+    key = 'tartiflette/execution/execute.py::execute_fields_serially'
+    property_ids = ('C09', 'C01')
+    params = ['execution_context', 'parent_type', 'source_value', 'path', 'fields']
+
+    def args(self, en, names):
+        self.A = super().args(en, names)
+        return self.A
+
+    def items(self):
+        return V.ditems(self.A['fields'])
+
+    def pre(self, A, st):
+        return [('fields', z3.And(V.is_Dict(A['fields']), AllFieldEntries(self.items())))]
+
+    def ghost0(self, A):
+        return {'started': V.List(VL.nil), 'running': z3.BoolVal(False)}
+
+    def extra_env(self, en, A):
+        def resolve_field(en, st, a, kw):
+            nodes = en.read(a[3], st)
+            key = attr0(en.read(a[4], st), 'key')
+            started = st.ghost['started']
+            st = st.put_ghost('started', V.List(snoc(V.items(started), key)))
+            e = V.Obj(fresh('ecls', IntS), fresh('eref', IntS))
+            return en.branches(st, [(z3.Not(FRaises(nodes, key)), FO(nodes, key)), (z3.And(FRaises(nodes, key), inst(e, 'Exception'), V.oref(e) >= 0), Raise(e))])
+        return {'resolve_field': PyFunc('resolve_field', resolve_field)}
+
+    def _inv(self, en, st, k, st0):
+        res = V.ditems(en.read(st.env['results'], st))
+        return {'started_in_order_once_each': st.ghost['started'] == V.List(take(keys(self.items()), k)), 'results_in_order': res == SerMap(self.items(), k)}
+
+    @property
+    def loops(self):
+        return {0: LoopContract(self._inv, modifies_ghost=('started',))}
+
+    def post(self, A, st0, out):
+        g = out.st.ghost
+        n = length(self.items())
+        if out.kind == 'raise':
+            return [('a_failure_stops_the_later_fields', V.is_List(g['started']))]
+        return [('every_root_field_once_in_collection_order', g['started'] == V.List(keys(self.items()))), ('results_keyed_in_collection_order', out.value == V.Dict(SerMap(self.items(), n)))]
+
+
+CONTRACTS.append(ExecuteFieldsSerially())
